@@ -21,6 +21,8 @@ def gen_cases(seed, tier, n):
         import random
         rng = random.Random(seed * 7919 + i)
         c["params"] = {"mem": rng.random() < 0.5}
+        if i % 3 == 1:
+            tracegen.relabel_ranks(c)      # a subset of a job: rank ids are not 0..n-1, and not listed in order
         out.append(c)
     return out
 
